@@ -4,6 +4,7 @@
 #![allow(deprecated)]
 
 mod keys;
+#[cfg(feature = "full")]
 mod oracle;
 
 use alloy_rlp::{Decodable, Encodable};
@@ -195,6 +196,15 @@ fn rec_obs<K: EnrKey>(e: &Enr<K>) -> String {
         && into.iter().zip(e.iter()).all(|((k1, v1), (k2, v2))| k1 == k2 && v1.as_ref() == v2);
     let nid_conv = NodeId::from(e) == e.node_id() && NodeId::from(e.clone()) == e.node_id();
     let _ = write!(o, " glue={}", (absent && !dbg.is_empty() && dbgp_ok && same_iter && nid_conv) as u8);
+    // is the record accepted again by the decoder, as itself?
+    let mut enc2 = Vec::new();
+    e.encode(&mut enc2);
+    let redec = match Enr::<K>::decode(&mut enc2.as_slice()) {
+        Ok(d) => d == *e && d.to_base64() == e.to_base64(),
+        Err(_) => false,
+    };
+    let _ = logs();
+    let _ = write!(o, " redec={}", redec as u8);
     o
 }
 
@@ -632,7 +642,9 @@ fn run<K: Kt>(input: &mut dyn BufRead, out: &mut dyn Write) {
                     _ => "norec".into(),
                 }
             }
+            #[cfg(feature = "full")]
             "nodeid" => guarded(|| oracle::nodeid_cmd(&t[1..])),
+            #[cfg(feature = "full")]
             "ckimport" => guarded(|| oracle::ckimport_cmd(&t[1..])),
             _ => "badcmd".into(),
         };
@@ -658,6 +670,7 @@ fn main() {
     let mut input = stdin.lock();
     let stdout = std::io::stdout();
     let mut out = std::io::BufWriter::new(stdout.lock());
+    #[cfg(feature = "full")]
     if args.len() >= 2 && args[1] == "oracle" {
         oracle::serve(&mut input, &mut out);
         return;
@@ -665,12 +678,16 @@ fn main() {
     let kt = args.get(1).map(String::as_str).unwrap_or("k256");
     match kt {
         "k256" => run::<Spy<enr::k256::ecdsa::SigningKey>>(&mut input, &mut out),
+        #[cfg(feature = "full")]
         "libsecp" => run::<Spy<enr::secp256k1::SecretKey>>(&mut input, &mut out),
+        #[cfg(feature = "full")]
         "ed" => run::<Spy<enr::ed25519_dalek::SigningKey>>(&mut input, &mut out),
+        #[cfg(feature = "full")]
         "comb" => run::<Spy<enr::CombinedKey>>(&mut input, &mut out),
         "toy" => run::<ToyKey>(&mut input, &mut out),
         // the plain (unwrapped) key types, as users instantiate them
         "k256_plain" => run::<enr::k256::ecdsa::SigningKey>(&mut input, &mut out),
+        #[cfg(feature = "full")]
         "comb_plain" => run::<enr::CombinedKey>(&mut input, &mut out),
         _ => panic!("unknown key type {kt}"),
     }
